@@ -356,13 +356,18 @@ func rewriteSimpleJoinCondition(c parser.Expr) parser.Expr {
 
 func hasJoinTerms(x parser.Expr) (left, right bool) {
 	parser.Walk(x, func(n parser.Node) bool {
-		if n, ok := n.(*parser.Ident); ok {
-			switch n.Name {
-			case leftJoinTableAlias:
-				left = true
-			case rightJoinTableAlias:
-				right = true
+		// Only the unquoted leading part of a name is a join alias:
+		// `$right` in backticks, or after a dot, is a column that happens to be called that.
+		if n, ok := n.(*parser.QualifiedIdent); ok {
+			if len(n.Parts) > 0 && !n.Parts[0].Quoted {
+				switch n.Parts[0].Name {
+				case leftJoinTableAlias:
+					left = true
+				case rightJoinTableAlias:
+					right = true
+				}
 			}
+			return false
 		}
 		return true
 	})
